@@ -84,6 +84,16 @@ Line(de, tm, ov) ==
 
 OvOf(h) == [p \in Props |-> <<I(70 + p + (h % 5))>>]
 
+\* refinement (C01) also on the large pseudo-random lists: code path allowed by the CSS meaning at every
+\* grid position incl. the half-steps, for two default easings, with and without override
+GridR == {<<n, 2 * PD>> : n \in 0..(2 * PD)}
+RefinesR ==
+  LET ks == StableSort(kfs) IN
+  \A p \in Props, de \in {1, 2}, pos \in GridR, useov \in BOOLEAN :
+    LET ov == IF useov THEN <<I(77)>> ELSE NoOv
+        im == ImplSeg(ks, p, de, pos, useov, ov)
+    IN im # {} /\ im \subseteq DesignSeg(ks, p, de, pos, useov, ov)
+
 Emit ==
   LET tm1 == TimingPool[(H % Len(TimingPool)) + 1]
       tm2 == TimingPool[((H \div 7) % Len(TimingPool)) + 1]
